@@ -144,6 +144,16 @@ CHECKS['C20'] = (
  'is checked in Fractions and s against the rounding oracle.',
  'Preconditions (nearest rounding, ordered magnitudes, minimum precision, headroom for error terms) evaluated exactly; '
  'precondition-false cells counted and not judged; dyadic operands only.', '§5 C20')
+CHECKS['C07'] = (
+ 'bounded exhaustive enumeration of programs from eight def-use-hazard grammars x every enable_* switch subset, single pass and '
+ 'pass order x inputs; metamorphic comparison f(args) vs T(f)(args) on the real interpreter',
+ 'Every well-scoped program up to 4-5 (thorough 5-6) statements of eight grammar families (copy then reassign across straight line, '
+ 'branches and loop back-edges; lists mutated through aliases and by callees; rows of nested lists; constants under different with '
+ 'contexts and modes incl. -0.0 and 1/3; constant conditions and early returns; tuple targets) is transformed by simplify under the '
+ 'switch subsets, by each pass alone and by all 6 pass orders, and run on the input pool; results compared deeply (sign of zero, NaN, '
+ 'booleans, list/tuple shape); non-termination of simplify is decided structurally (same AST at the top of two rounds).',
+ 'Judged only where the original returns; a transformation that raises or does not terminate counts as a violation; failing cases are '
+ 'attributed to the single rewrite that reproduces them using three private fpy2 classes (coarse label if unavailable).', '§5 C07')
 PENDING = {}
 
 def main():
